@@ -63,16 +63,20 @@ def make_kv(bspline, rng, a, b, p=None, breaks=None, maxspans=3):
     return bspline.KnotVector(np.array(knots, dtype=float), p), breaks
 
 
-def make_spaces(bspline, rng, d, two):
+def make_spaces(bspline, rng, d, two, cfg=None):
+    """cfg (optional): {'p0': degrees of space 0 per axis, 'p1': degrees of space 1 per axis, 'geo': 'identity'|'random'}"""
     kvs0, kvs1 = [], []
+    cfg = cfg or {}
     for ax in range(d):
         a = rng.choice([0.0, 0.0, -1.0, 0.5])
         b = a + rng.choice([1.0, 1.0, 2.0, 0.5])
+        if cfg.get('geo') == 'identity':
+            a, b = 0.0, 1.0
         maxspans = 3 if d < 3 else 2
-        kv, br = make_kv(bspline, rng, a, b, maxspans=maxspans)
+        kv, br = make_kv(bspline, rng, a, b, p=(cfg['p0'][ax] if 'p0' in cfg else None), maxspans=maxspans)
         kvs0.append(kv)
         if two:
-            kv1, _ = make_kv(bspline, rng, a, b, breaks=br)
+            kv1, _ = make_kv(bspline, rng, a, b, p=(cfg['p1'][ax] if 'p1' in cfg else None), breaks=br)
             kvs1.append(kv1)
     return tuple(kvs0), (tuple(kvs1) if two else None)
 
@@ -166,7 +170,7 @@ def gauss_nodes(mesh, nqp):
 # one (form, instance)
 # ---------------------------------------------------------------------------------------------
 
-def run_instance(mods, spec, header, forest, asmcls, seed, max_pairs, selftest_scale=None):
+def run_instance(mods, spec, header, forest, asmcls, seed, max_pairs, selftest_scale=None, cfg=None):
     pyiga, bspline, geometry, assemble, vform, orc = mods
     rng = random.Random(seed)
     d, g = header['dim'], header['geo_dim']
@@ -174,7 +178,7 @@ def run_instance(mods, spec, header, forest, asmcls, seed, max_pairs, selftest_s
     bfs = header['bfuns']
     two = len(set(b['space'] for b in bfs)) > 1
     res = {'seed': seed}
-    kvs0, kvs1 = make_spaces(bspline, rng, d, two)
+    kvs0, kvs1 = make_spaces(bspline, rng, d, two, cfg)
     boundary = None
     if header['boundary']:
         boundary = (rng.randrange(d), rng.randint(0, 1))
@@ -187,7 +191,11 @@ def run_instance(mods, spec, header, forest, asmcls, seed, max_pairs, selftest_s
     geo = None
     for attempt in range(20):
         nurbs = rng.random() < 0.4
-        cand = make_geo(bspline, geometry, rng, kvs0, d, g, header['spacetime'], nurbs)
+        if cfg and cfg.get('geo') == 'identity' and g == d:
+            nurbs = False
+            cand = geometry.unit_cube(dim=d)
+        else:
+            cand = make_geo(bspline, geometry, rng, kvs0, d, g, header['spacetime'], nurbs)
         grid = []
         for ax, kv in enumerate(kvs0):
             if boundary is not None and ax == boundary[0]:
@@ -524,9 +532,12 @@ def run_forms(payload):
                 continue
             res['t_build'] = round(time.time() - t0, 2)
             inst = []
-            for seed in spec['seeds']:
+            todo_inst = [(seed, None) for seed in spec.get('seeds', [])] + [(c['seed'], c) for c in spec.get('configs', [])]
+            for seed, cfg in todo_inst:
                 try:
-                    r = run_instance(mods, spec, header, forest, asmcls, seed, payload.get('max_pairs', 400), payload.get('selftest_scale'))
+                    r = run_instance(mods, spec, header, forest, asmcls, seed, payload.get('max_pairs', 400), payload.get('selftest_scale'), cfg)
+                    if cfg:
+                        r['cfg'] = cfg
                 except Exception as e:
                     r = {'seed': seed, 'status': 'DriverError:' + errclass(e), 'msg': traceback.format_exc()[-1200:]}
                 inst.append(r)
@@ -654,6 +665,27 @@ def run_layout(payload):
         r['pre_reads'] = {'temp_fields': rd(pre, 'temp_fields')}
         r['loads'] = loads
         r['nparams_slots'] = sum(int(np.prod(p.shape or (1,))) for p in V.params)
+        # the number of Gauss nodes per span the generated __init__ computes, evaluated on degree lists
+        m = re.search(r'(?m)^\s*self\.nqp = (.*)$', init)
+        one_space = bool(re.search(r'(?m)^\s*kvs1 = kvs0\s*$', init))
+        r['nqp_expr'] = m.group(1) if m else None
+        r['one_space'] = one_space
+        nq = []
+        if m:
+            class KV:
+                def __init__(self, p):
+                    self.p = p
+            for (ps0, ps1) in payload.get('nqp_configs', []):
+                if len(ps0) != V.dim:
+                    continue
+                env = {'kvs0': tuple(KV(p) for p in ps0), 'max': max}
+                env['kvs1'] = env['kvs0'] if one_space else tuple(KV(p) for p in ps1)
+                try:
+                    val = int(eval(m.group(1), {'__builtins__': {}}, env))
+                except Exception as e:
+                    val = -1
+                nq.append([list(ps0), list(ps0) if one_space else list(ps1), val])
+        r['nqp_values'] = nq
         forms.append(r)
     out['forms'] = forms
     return out
